@@ -45,6 +45,8 @@ RangeKind(ln) ==
     [] OTHER -> 4
 RangeKindOK(ln) ==
   \/ RangeKind(ln) \in {1, 2, 3, 4, 5, 6}
+  \* forward range of construct-only sources (constructible, not assignable, from *first): constructor, assign, append
+  \/ RangeKind(ln) = 7 /\ ln.op # "insert_rng"
   \* single-pass input ranges: everything except the mid-sequence insert (which buffers the range in a temporary container)
   \/ RangeKind(ln) = 0
 
@@ -109,7 +111,7 @@ Prim(cfg, s, ins) ==
                    !.evs = Append(@, <<5, 10 + ins.id, ins.n, ins.aid, 1, 0>>)]
     [] ins.t = "ctor" ->
          LET src == IF ins.kind \in {1, 2} THEN CellAt(s, ins.sr, ins.si) ELSE Raw
-             val == CASE ins.kind = 0 -> Live(0, 0)
+             val == CASE ins.kind = 0 -> Live(cfg.defval, 0)
                       [] ins.kind = 3 -> Live(ins.v, 0)
                       [] OTHER -> Live(src[2], src[3])
              s1  == SetCell(s, ins.r, ins.i, val)
@@ -363,11 +365,15 @@ EraseRangeImpl(cfg, c, x, R, f, l) ==
 
 \* ---- source ranges: element j of the caller's range is the external cell <<4, j>>.  rk = iterator kind of the driver:
 \* 1 forward, 2 bidirectional, 3 random access (instrumented: * and ++ are fallible steps), 4 pointer,
-\* 5 move_iterator<pointer> (elements are moved from), 6 iterators of another container
-Ticks(rk)     == rk \in {1, 2, 3}
+\* 5 move_iterator<pointer> (elements are moved from), 6 iterators of another container,
+\* 7 forward (instrumented) over construct-only sources: the element is built by its explicit converting constructor
+\*   (event kind 3, value cfg.srcv[j + 1] -- Script extends cfg with the call's fresh values) and can not be assigned from
+Ticks(rk)     == rk \in {1, 2, 3, 7}
+Conv(rk)      == rk = 7
 CtorKind(cfg, rk) == IF rk = 5 THEN MoveKind(cfg) ELSE 1
 \* std::distance / std::advance walk forward and bidirectional iterators one step at a time
-StepTicks(rk, n) == IF rk \in {1, 2} THEN [j \in 1..n |-> ITick(9)] ELSE <<>>
+StepTicks(rk, n) == IF rk \in {1, 2, 7} THEN [j \in 1..n |-> ITick(9)] ELSE <<>>
+RangeCtor(cfg, rk, R2, i, j) == IF Conv(rk) THEN ICtor(R2, i, 3, 0, 0, cfg.srcv[j + 1]) ELSE ICtor(R2, i, 1, 4, j, 0)
 
 \* default_uninitialized_copy (2127): construct (d, *first); ++d; ++first
 \* (sr = region the source elements live in: 4 = the caller's range; a buffer region for move_iterators over a temporary)
@@ -379,7 +385,7 @@ UCopyExt(cfg, rk, R2, dlo, lo, hi) ==
   IUc(IF Ticks(rk)
         THEN [k \in 1..(3 * (hi - lo)) |->
                 LET j == lo + (k - 1) \div 3 IN
-                CASE (k - 1) % 3 = 0 -> ITick(8) [] (k - 1) % 3 = 1 -> ICtor(R2, dlo + (j - lo), 1, 4, j, 0) [] OTHER -> ITick(9)]
+                CASE (k - 1) % 3 = 0 -> ITick(8) [] (k - 1) % 3 = 1 -> RangeCtor(cfg, rk, R2, dlo + (j - lo), j) [] OTHER -> ITick(9)]
         ELSE Seqq(lo, hi, LAMBDA j : ICtor(R2, dlo + (j - lo), CtorKind(cfg, rk), 4, j, 0)))
 
 \* std::copy / std::copy_n onto live elements: *d = *first; ++first; ++d
@@ -390,7 +396,7 @@ CopyAsg(cfg, rk, R, dlo, lo, hi) ==
             CASE (k - 1) % 3 = 0 -> ITick(8) [] (k - 1) % 3 = 1 -> IAsg(R, dlo + (j - lo), 1, 4, j) [] OTHER -> ITick(9)]
     ELSE Seqq(lo, hi, LAMBDA j : IAsg(R, dlo + (j - lo), CtorKind(cfg, rk), 4, j))
 
-\* assign_with_range, forward overload (3575)
+\* assign_with_range, forward overload (3575); value type not assignable from *first (3613): erase_all, then append_range
 AssignRange(cfg, c, x, R, id, n, rk) ==
   StepTicks(rk, n) \o
   (IF x.cap < n THEN
@@ -418,6 +424,15 @@ AppendRange(cfg, c, x, R, id, n, kind, rk) ==
                    <<IDealloc(id, nc, x.al)>>)>>
             \o ResetData(c, x, R, id, nc, x.sz + n) \o <<IRet(x.sz)>>
   ELSE <<UCopyExt(cfg, rk, R, x.sz, 0, n), ISetSz(c, x.sz + n), IRet(x.sz)>>)
+
+\* assign_with_range when the value type is not assignable from *first, forward overload: the length is measured and
+\* checked against max_size() first (so that a length_error has no effect), then erase_all, then append_range
+\* (which measures the range again)
+AssignConv(cfg, c, x, R, id, n, rk) ==
+  StepTicks(rk, n) \o
+  (IF cfg.max < n THEN <<IThrow("length_error")>>
+   ELSE <<ISetSz(c, 0)>> \o DestroyRange(R, 0, x.sz)
+        \o AppendRange(cfg, c, [x EXCEPT !.sz = 0], R, id, n, MoveKind(cfg), rk) \o <<IRet(-1)>>)
 
 \* insert_range_helper (3990), pos < sz, n > 0
 InsertRangeHelperFrom(cfg, c, x, R, id, pos, n, rk, sr) ==
@@ -698,6 +713,7 @@ Script(cfg, pre, ln, id) ==
       op == ln.op
       N  == NOf(cfg, c)
       arg(al) == IF al >= 0 THEN <<1, R, al, 0>> ELSE <<1, 4, 100, 0>>       \* copy from an element of the container | from the caller's value
+      cfgv == [srcv |-> ln.v] @@ cfg                                         \* the call's fresh values, for construct-only sources
   IN
   CASE op = "push_back"      -> AppendElement(cfg, c, x, R, id, arg(a[1]), -1)
     [] op = "emplace_back_c" -> AppendElement(cfg, c, x, R, id, arg(a[1]), x.sz)
@@ -712,10 +728,12 @@ Script(cfg, pre, ln, id) ==
     [] op = "reserve"        -> Reserve(cfg, c, x, R, id, a[1])
     [] op = "shrink"         -> Shrink(cfg, c, x, R, id, N, InlRegion(c))
     [] op = "assign_n"       -> AssignCopies(cfg, c, x, R, id, a[1], 4, 100)
-    [] op = "assign_rng"     -> IF a[1] = 0 THEN AssignInput(cfg, c, x, R, id, a[2]) ELSE AssignRange(cfg, c, x, R, id, a[2], a[1])
+    [] op = "assign_rng"     -> IF a[1] = 0 THEN AssignInput(cfg, c, x, R, id, a[2])
+                                ELSE IF Conv(a[1]) THEN AssignConv(cfgv, c, x, R, id, a[2], a[1])
+                                ELSE AssignRange(cfg, c, x, R, id, a[2], a[1])
     [] op \in {"assign_il", "opeq_il"} -> AssignRange(cfg, c, x, R, id, a[1], 4)
     [] op = "append_rng"     -> (IF a[1] = 0 THEN AppendLoop(cfg, c, x, id, 0, a[2], a[2], TRUE, x.sz)
-                                 ELSE AppendRange(cfg, c, x, R, id, a[2], StrongKind(cfg), a[1])) \o <<IRet(-1)>>      \* append returns *this
+                                 ELSE AppendRange(cfgv, c, x, R, id, a[2], StrongKind(cfg), a[1])) \o <<IRet(-1)>>      \* append returns *this
     [] op = "append_il"      -> AppendRange(cfg, c, x, R, id, a[1], StrongKind(cfg), 4) \o <<IRet(-1)>>
     [] op = "insert_rng" /\ a[2] = 0 ->
          IF a[3] = 0 THEN <<IRet(a[1])>>
@@ -738,14 +756,14 @@ Script(cfg, pre, ln, id) ==
          IN StepTicks(rk, n) \o
             (IF n > N THEN
               IF n > cfg.max THEN <<IThrow("length_error")>>
-              ELSE <<IAlloc(id, n, al), ITry(<<UCopyExt(cfg, rk, 10 + id, 0, 0, n)>>, <<IDealloc(id, n, al)>>),
+              ELSE <<IAlloc(id, n, al), ITry(<<UCopyExt(cfgv, rk, 10 + id, 0, 0, n)>>, <<IDealloc(id, n, al)>>),
                      ISetP(c, TRUE, al), ISetHd(c, n, id), ISetSz(c, n)>>
-            ELSE <<UCopyExt(cfg, rk, InlRegion(c), 0, 0, n), ISetP(c, TRUE, al), ISetHd(c, N, 0), ISetSz(c, n)>>)
+            ELSE <<UCopyExt(cfgv, rk, InlRegion(c), 0, 0, n), ISetP(c, TRUE, al), ISetHd(c, N, 0), ISetSz(c, n)>>)
     [] op \in {"erase_val", "erase_if"} ->
          \* std::remove_if: find the first match; every later element that is kept is move-assigned down; then the
          \* tail [new_end, end) is erased (size first, then destructors)
          LET es == pre[c].e
-             hit(j) == IF op = "erase_val" THEN es[j + 1][1] = a[1] ELSE PredHolds(a[1], a[2], es[j + 1][1])
+             hit(j) == IF op = "erase_val" THEN ElemEq(cfg.flt, es[j + 1][1], a[1]) ELSE PredHolds(a[1], a[2], es[j + 1][1])
              firsts == {j \in 0..(x.sz - 1) : hit(j)}
          IN IF firsts = {} THEN <<IRet(0)>>
             ELSE LET f == CHOOSE j \in firsts : \A j2 \in firsts : j <= j2
